@@ -44,73 +44,147 @@ theorem known_of_heads (L : Ops) (e : Expr) (h : ∀ x ∈ heads e, knownHead L 
 
 /-! ## classification: the Python-side specification of function kinds -/
 
+def isScopeTag (t : Str) : Bool := t == c!"class_def_raw" || t == c!"function_def_raw"
+
 /-- innermost enclosing `class_def_raw` / `function_def_raw` of a position (its own tag excluded) -/
-def nearestScope (tags : List Str) : Option Str :=
-  (tags.dropLast.reverse.find? fun t => t == c!"class_def_raw" || t == c!"function_def_raw")
+def nearestScope (tags : List Str) : Option Str := tags.dropLast.reverse.find? isScopeTag
 
 def inClass (f : FuncFeat) : Bool := nearestScope f.tags == some c!"class_def_raw"
 def inFunction (f : FuncFeat) : Bool := nearestScope f.tags == some c!"function_def_raw"
-/-- `… class_def_raw . block . function_def`: a statement of the class body itself -/
-def directlyInClass (f : FuncFeat) : Bool := fromEnd f.tags 3 == some c!"class_def_raw"
-
 def hasDeco (d : Str) (f : FuncFeat) : Bool := f.decorators.contains d
 def selfFirst (f : FuncFeat) : Bool := f.firstParam == some c!"self"
 def hasTag (t : Str) (f : FuncFeat) : Bool := f.tags.contains t
+def nameIsInit (f : FuncFeat) : Bool := f.name == c!"__init__"
 
 /-- the kind Python's semantics gives a `def`: decided by where it stands and how it is decorated -/
 def pyFuncClass (f : FuncFeat) : FuncClass :=
   if inClass f then
     if hasDeco c!"classmethod" f then .classMethod
-    else if isConstructor f then .constructor
+    else if nameIsInit f then .constructor
     else if hasDeco c!"staticmethod" f then .function
     else .method
   else if inFunction f then .closure
   else .function
 
-/-- the coding conventions under which tranp's name-based tests coincide with Python's semantics -/
-structure Conventional (f : FuncFeat) : Prop where
-  /-- `@classmethod` is the outermost decorator -/
-  cmFirst : hasDeco c!"classmethod" f = true → isClassMethod f = true
-  /-- functions of a class are statements of the class body (not nested in `if`/`try` blocks) … -/
-  direct : inClass f = true → directlyInClass f = true
-  /-- … (and a statement of a class body has that class as nearest scope: true of every real path) -/
-  directOnly : directlyInClass f = true → inClass f = true
-  /-- outside classes nothing is decorated `classmethod`, called `__init__`, or takes `self` first -/
-  outside : inClass f = false →
-    hasDeco c!"classmethod" f = false ∧ isConstructor f = false ∧ selfFirst f = false
-  /-- inside a class the first parameter is `self` exactly for the non-static, non-class methods -/
-  selfRule : inClass f = true → hasDeco c!"classmethod" f = false →
-    (selfFirst f = true ↔ hasDeco c!"staticmethod" f = false)
-  /-- a def whose nearest scope is a function has a scope in its path and is not a class-body statement (true of every real path) -/
-  hasScope : inFunction f = true →
-    (hasTag c!"class_def_raw" f || hasTag c!"function_def_raw" f) = true ∧ directlyInClass f = false
-  /-- a def with no enclosing scope has none in its path (true of every real path) -/
-  noScope : inClass f = false → inFunction f = false →
-    hasTag c!"class_def_raw" f = false ∧ hasTag c!"function_def_raw" f = false
+/-- the shape every real `function_def` path has: own tag `function_def`, and the parent element (`block` or `file_input`)
+    is not itself a scope tag -/
+def PathShape (f : FuncFeat) : Prop :=
+  fromEnd f.tags 1 = some c!"function_def" ∧ ∀ t, fromEnd f.tags 2 = some t → isScopeTag t = false
 
-theorem isMethod_eq (f : FuncFeat) : isMethod f = (!isConstructor f && selfFirst f) := rfl
+/-- what is still convention after fix e2c3e47 (the name-based tests that remain in `match_feature`) -/
+structure Conventional (f : FuncFeat) : Prop where
+  /-- `@classmethod` is only written on functions of a class (`ClassMethod.match_feature` does not look at the position) -/
+  cmInClass : hasDeco c!"classmethod" f = true → inClass f = true
+  /-- functions of a class are statements of the class body, not nested in `if` / `try` blocks of it
+      (`_in_class_block` wants `class_def_raw.block.function_def`) -/
+  direct : inClass f = true → inClassBlock f = true
+  /-- inside a class the first parameter is called `self` exactly for the instance methods
+      (`Method.match_feature` recognises an instance method by that name) -/
+  selfRule : inClass f = true → hasDeco c!"classmethod" f = false → nameIsInit f = false →
+    (selfFirst f = true ↔ hasDeco c!"staticmethod" f = false)
+
+theorem pathShape_of (f : FuncFeat) (h1 : fromEnd f.tags 1 = some c!"function_def") (b : Str)
+    (h2 : fromEnd f.tags 2 = some b) (hb : isScopeTag b = false) : PathShape f :=
+  ⟨h1, fun t ht => by rw [h2] at ht; cases ht; exact hb⟩
+
+theorem isConstructor_eq (f : FuncFeat) : isConstructor f = (inClassBlock f && nameIsInit f) := rfl
+theorem isMethod_eq (f : FuncFeat) : isMethod f = (inClassBlock f && (!nameIsInit f && selfFirst f)) := rfl
+theorem isClassMethod_eq (f : FuncFeat) : isClassMethod f = hasDeco c!"classmethod" f := rfl
 
 theorem isClosure_eq (f : FuncFeat) :
     isClosure f =
       (!(!hasTag c!"class_def_raw" f && !hasTag c!"function_def_raw" f) &&
-        !(!(!hasTag c!"class_def_raw" f && !hasTag c!"function_def_raw" f) && directlyInClass f)) := rfl
+        !(!(!hasTag c!"class_def_raw" f && !hasTag c!"function_def_raw" f) && inClassBlock f)) := rfl
 
-theorem isClassMethod_hasDeco (f : FuncFeat) (h : isClassMethod f = true) : hasDeco c!"classmethod" f = true := by
-  simp only [isClassMethod, beq_iff_eq] at h
-  simp only [hasDeco, List.contains_iff_mem]
-  cases hd : f.decorators with
-  | nil => rw [hd] at h; simp at h
-  | cons x xs => rw [hd] at h; simp at h; simp [h]
+theorem fromEnd_reverse (r : List Str) (k : Nat) : fromEnd r.reverse (k + 1) = r[k]? := by
+  unfold fromEnd
+  simp only [List.length_reverse, Nat.succ_ne_zero, false_or]
+  by_cases h : r.length < k + 1
+  · simp [h]; omega
+  · simp only [h, if_false]
+    rw [List.getElem?_reverse (by omega)]
+    congr 1; omega
 
-theorem isClassMethod_iff (f : FuncFeat) : isClassMethod f = true ↔ f.decorators.head? = some c!"classmethod" := by
+/-- the structural facts about real paths that relate the two ways of looking at the position -/
+theorem path_facts (f : FuncFeat) (hs : PathShape f) :
+    (inClassBlock f = true → inClass f = true)
+    ∧ (inFunction f = true → (hasTag c!"class_def_raw" f || hasTag c!"function_def_raw" f) = true ∧ inClassBlock f = false)
+    ∧ (inClass f = false → inFunction f = false → hasTag c!"class_def_raw" f = false ∧ hasTag c!"function_def_raw" f = false) := by
+  obtain ⟨r, hr⟩ : ∃ r, f.tags = r.reverse := ⟨f.tags.reverse, by simp⟩
+  obtain ⟨h1, h2⟩ := hs
+  simp only [inClassBlock, inClass, inFunction, hasTag, nearestScope, hr, List.dropLast_reverse, List.reverse_reverse] at *
+  rw [fromEnd_reverse] at h1
+  rw [fromEnd_reverse]
+  have h2' : ∀ t, r[1]? = some t → isScopeTag t = false := by
+    intro t ht; apply h2; rw [fromEnd_reverse]; exact ht
+  have hc : isScopeTag c!"class_def_raw" = true := by decide
+  have hf : isScopeTag c!"function_def_raw" = true := by decide
+  have hne : (c!"class_def_raw" : Str) ≠ c!"function_def_raw" := by decide
+  match r, h1, h2' with
+  | [], h1, _ => simp at h1
+  | [a], h1, _ =>
+    simp at h1; subst h1
+    simp
+  | a :: b :: rest, h1, h2' =>
+    simp at h1; subst h1
+    have hb : isScopeTag b = false := h2' b (by simp)
+    simp only [List.tail_cons, List.find?_cons, hb]
+    refine ⟨?_, ?_, ?_⟩
+    · intro hd
+      cases rest with
+      | nil => simp at hd
+      | cons c rest' =>
+        simp at hd; subst hd
+        simp [hc]
+    · intro hfn
+      simp only [beq_iff_eq] at hfn
+      have hmem := List.mem_of_find?_eq_some hfn
+      refine ⟨?_, ?_⟩
+      · simp only [Bool.or_eq_true, List.contains_iff_mem, List.mem_reverse, List.mem_cons]
+        exact Or.inr (Or.inr (Or.inr hmem))
+      · cases rest with
+        | nil => simp at hfn
+        | cons c rest' =>
+          simp only [List.find?_cons] at hfn
+          by_cases hcs : isScopeTag c = true
+          · simp only [hcs] at hfn
+            have : c = c!"function_def_raw" := Option.some.inj hfn
+            subst this
+            simp
+          · have hcs' : isScopeTag c = false := by simpa using hcs
+            have : c ≠ c!"class_def_raw" := by
+              intro h; rw [h, hc] at hcs'; cases hcs'
+            simp [this]
+    · intro hic hif
+      have hnone : rest.find? isScopeTag = none := by
+        cases hfd : rest.find? isScopeTag with
+        | none => rfl
+        | some x =>
+          have hx := List.find?_some hfd
+          simp only [isScopeTag, Bool.or_eq_true, beq_iff_eq] at hx
+          rcases hx with rfl | rfl
+          · simp [hfd] at hic
+          · simp [hfd] at hif
+      rw [List.find?_eq_none] at hnone
+      have hbc : b ≠ c!"class_def_raw" := by intro h; rw [h, hc] at hb; cases hb
+      have hbf : b ≠ c!"function_def_raw" := by intro h; rw [h, hf] at hb; cases hb
+      have hrc : c!"class_def_raw" ∉ rest := fun h => by have := hnone _ h; rw [hc] at this; exact this rfl
+      have hrf : c!"function_def_raw" ∉ rest := fun h => by have := hnone _ h; rw [hf] at this; exact this rfl
+      have hac : (c!"function_def" : Str) ≠ c!"class_def_raw" := by decide
+      have haf : (c!"function_def" : Str) ≠ c!"function_def_raw" := by decide
+      simp [hbc.symm, hbf.symm, hrc, hrf, hac.symm, haf.symm]
+
+theorem isClassMethod_iff (f : FuncFeat) : isClassMethod f = true ↔ c!"classmethod" ∈ f.decorators := by
   simp [isClassMethod]
 
-theorem isConstructor_iff (f : FuncFeat) : isConstructor f = true ↔ f.name = c!"__init__" := by
-  simp [isConstructor]
+theorem isConstructor_iff (f : FuncFeat) :
+    isConstructor f = true ↔ fromEnd f.tags 3 = some c!"class_def_raw" ∧ f.name = c!"__init__" := by
+  simp [isConstructor, inClassBlock]
 
 theorem isMethod_iff (f : FuncFeat) :
-    isMethod f = true ↔ f.name ≠ c!"__init__" ∧ f.firstParam = some c!"self" := by
-  simp [isMethod]
+    isMethod f = true ↔
+      fromEnd f.tags 3 = some c!"class_def_raw" ∧ f.name ≠ c!"__init__" ∧ f.firstParam = some c!"self" := by
+  simp [isMethod, inClassBlock]
 
 theorem isClosure_iff (f : FuncFeat) :
     isClosure f = true ↔
